@@ -482,7 +482,10 @@ func buildUnits(quick bool, cp *corpus) []unit {
 			xgen.Seed{Name: "created:tls:certificateStatus", Data: []byte{22, 0, 0, 8, 1, 0, 0, 4, 0xde, 0xad, 0xbe, 0xef}},
 			xgen.Seed{Name: "created:tls:keyUpdate", Data: []byte{24, 0, 0, 1, 1}},
 			xgen.Seed{Name: "created:tls:endOfEarlyData", Data: []byte{5, 0, 0, 0}},
-			xgen.Seed{Name: "created:tls:helloRequest", Data: []byte{0, 0, 0, 0}})
+			xgen.Seed{Name: "created:tls:helloRequest", Data: []byte{0, 0, 0, 0}},
+			// the TLS 1.2 layouts (signature-algorithm fields) of CertificateRequest and CertificateVerify
+			xgen.Seed{Name: "created:tls:certificateRequest12", Data: []byte{13, 0, 0, 10, 1, 1, 0, 4, 4, 1, 5, 1, 0, 0}},
+			xgen.Seed{Name: "created:tls:certificateVerify12", Data: []byte{15, 0, 0, 8, 4, 1, 0, 4, 0xde, 0xad, 0xbe, 0xef}})
 		perType := map[byte]int{}
 		for _, s := range hs {
 			t := s.Data[0]
